@@ -27,10 +27,7 @@ def checksum (lock : Nat) (img : Img) : Chk :=
 
 /-- apply a transaction file to an image: write its pages, resize to `commit` (holes are 0) -/
 def apply (img : Img) (tx : Tx) : Img :=
-  (List.range tx.commit).map fun i =>
-    match tx.pages.lookup (i + 1) with
-    | some c => c
-    | none => img.getD i 0
+  (List.range tx.commit).map fun i => (tx.pages.lookup (i + 1)).getD (img.getD i 0)
 
 /-- page constraints of a transaction file -/
 def pagesOK (lock : Nat) (tx : Tx) : Bool :=
